@@ -8,7 +8,8 @@ CONSTANT Grid        \* set of <<nAlleles, ploidy>>
 
 GridQuick == {<<1,1>>, <<2,1>>, <<7,1>>, <<1,2>>, <<2,2>>, <<3,2>>, <<9,2>>, <<30,2>>,
               <<1,3>>, <<2,3>>, <<4,3>>, <<6,3>>, <<2,4>>, <<3,4>>, <<5,4>>, <<10,4>>,
-              <<2,5>>, <<3,5>>, <<2,6>>, <<3,6>>, <<4,6>>, <<2,8>>}
+              <<2,5>>, <<3,5>>, <<2,6>>, <<3,6>>, <<4,6>>, <<2,8>>,
+              <<2,12>>, <<2,13>>, <<3,12>>, <<2,14>>, <<1,13>>}
 GridThorough == GridQuick \cup {<<6,6>>, <<5,6>>, <<12,4>>, <<60,2>>, <<8,5>>, <<3,10>>, <<4,8>>, <<20,3>>}
 
 VARIABLES n, p, g, idx, prev, order
